@@ -56,11 +56,12 @@ BIG = {
     "C15": ("two pages x every pool condition on up to 2 hosts x 2 retries",
             _c(OkKinds={"rows", "more", "void"}, ErrKinds={"Unavailable", "ConnectionShutdown"}, MaxRetries=2, MaxEpoch=2,
                PoolConds={"missing", "busy", "failing", "shutdown"}, MaxBad=2)),
-    "C16": ("7 error kinds x 4 decisions x 3 consistencies x 2 retries x speculative 0-2 x idempotence, late answers, timeout",
-            _c(IdemChoices={True, False}, OkKinds={"rows", "void"}, ErrKinds=ALLK, CLs={0, 1, 4}, MaxRetries=2)),
+    "C16": ("7 error kinds x 4 decisions x 2 consistencies x 2 retries x speculative 0-1 x idempotence, timeout",
+            _c(SpecChoices={0, 1}, IdemChoices={True, False}, ErrKinds=ALLK, CLs={0, 4}, MaxRetries=2, Late=False)),
     "C17": ("all 6^4 pool vectors (missing, shut down, busy, failing, unwritable, healthy) x target host 0-4 x 2 retries",
-            _c(NHosts=4, TargetChoices={0, 1, 2, 3, 4}, PoolConds={"missing", "shutdown", "busy", "failing", "unwritable"}, MaxBad=4,
-               ErrKinds={"Unavailable", "ConnectionShutdown"}, CLs={0, 1}, MaxRetries=2, Late=False)),
+            _c(NHosts=4, SpecChoices={0, 1}, TargetChoices={0, 1, 2, 3, 4},
+               PoolConds={"missing", "shutdown", "busy", "failing", "unwritable"}, MaxBad=4,
+               ErrKinds={"Unavailable", "ConnectionShutdown"}, MaxRetries=2, Late=False, Timeouts=False)),
 }
 LIVENESS = _c(NHosts=2, OkKinds={"rows", "more"}, Decisions={"RETRY", "NEXT", "RETHROW"}, MaxEpoch=2, Late=False,
               PoolConds={"missing"}, MaxBad=1)
